@@ -25,6 +25,8 @@ for d in sorted(glob.glob(f"/tmp/seed/{pid}_out/m*")):
         print(dst, "patch does not apply")
         continue
     results = {}
+    # evidence files must describe clean-tree runs only: keep them aside while a seeded change is applied
+    saved = {c: open(f"/verif/evidence/{c}.json").read() for c in [pid] + also if os.path.exists(f"/verif/evidence/{c}.json")}
     try:
         for c in [pid] + also:
             p = subprocess.run(["/verif/check", c], capture_output=True, text=True, cwd="/verif")
@@ -41,6 +43,9 @@ for d in sorted(glob.glob(f"/tmp/seed/{pid}_out/m*")):
                           "keys": keys[:8], "summary": lines[-1][:300] if lines else p.stdout[-300:] + p.stderr[-300:]}
     finally:
         subprocess.run(["git", "-C", "/repo", "checkout", "--", "."])
+        for c, txt in saved.items():
+            open(f"/verif/evidence/{c}.json", "w").write(txt)
+        subprocess.run([sys.executable, "/verif/tools/py2lean.py", "/repo", "/verif/lean/Gen/Kernels.lean"], capture_output=True)
     meta["check_runs"] = results
     meta["check_result"] = "caught" if any(r["exit"] == 1 for r in results.values()) else "MISSED"
     meta["check_cmd"] = f"git -C /repo apply seeded/{pid}-{i}/patch.diff && ./check {pid}; git -C /repo checkout -- ."
